@@ -63,10 +63,12 @@ Definition spec_children (a : archive) (d : str) : list aentry := filter (is_chi
 Definition spec_stat (e : aentry) : bool * Z := (eisdir e, esize e).
 
 (* The read-only byte-array view of ONE entry with any number of handles: ByteFile.bf_step on
-   read-only handles, plus three points where bf_step (written for mem.File) leaves a choice
+   read-only handles, plus a few points where bf_step (written for mem.File) leaves a choice
    that the archive filesystems make differently and the property does not care about:
    - Open adds a fresh read-only handle at offset 0;
    - a closed handle reports "closed" before the offset of ReadAt is looked at;
+   - the result of Close is not part of the property (bf_step: a second Close is an error, as in
+     tarfs; zipfs returns nil): Close always projects to ok;
    - a whence outside {0,1,2} is an error (bf_step: no-op);
    - [strict] (zipfs): seeking beyond the end is refused (bf_step and tarfs: allowed). *)
 Definition aspec_step (strict : bool) (s : bstate) (o : op) : bstate * pres :=
@@ -74,7 +76,8 @@ Definition aspec_step (strict : bool) (s : bstate) (o : op) : bstate * pres :=
     match nth_error (bhs s) i with Some h => k h | None => (s, PNone) end in
   match o with
   | Open _ => (mkBS (bdata s) (bhs s ++ [mkBH 0 false true]), POk)
-  | HRead i _ | HClose i => bf_step s o
+  | HRead i _ => bf_step s o
+  | HClose i => with_h i (fun h => if bclosed h then (s, POk) else bf_step s o)
   | HReadAt i _ _ => with_h i (fun h => if bclosed h then (s, PErr C_CLOSED) else bf_step s o)
   | HSeek i off wh => with_h i (fun h =>
       if bclosed h then (s, PErr C_CLOSED) else
@@ -144,32 +147,32 @@ Fixpoint arun {St} (step : St -> op -> St * res) (s : St) (ops : list op) : St *
   | o :: r => let '(s1, x) := step s o in let '(s2, xs) := arun step s1 r in (s2, x :: xs)
   end.
 
-(* ---------------------------------------------------------------- digest (vm_compute cross-check) *)
-Definition dg_mod : Z := 2305843009213693951.
-Definition dg (acc x : Z) : Z := Z.land (acc * 131 + x + 7) dg_mod.
-Definition dg_bytes (acc : Z) (b : bytes) : Z := fold_left (fun a x => dg a (Z.of_N x)) b (dg acc (zlen b)).
-Definition errk_code (k : errk) : Z :=
+(* ---------------------------------------------------------------- adigest (vm_compute cross-check) *)
+Definition adg_mod : Z := 2305843009213693951.
+Definition adg (acc x : Z) : Z := Z.land (acc * 131 + x + 7) adg_mod.
+Definition adg_bytes (acc : Z) (b : bytes) : Z := fold_left (fun a x => adg a (Z.of_N x)) b (adg acc (zlen b)).
+Definition aerrk_code (k : errk) : Z :=
   match k with
   | KNotExist => 1 | KExist => 2 | KClosed => 3 | KOutOfRange => 4 | KReadOnlyHandle => 5 | KNotADir => 6
   | KNegative => 7 | KEOF => 8 | KUnexpectedEOF => 9 | KShortWrite => 10 | KENOENT => 11 | KENOTDIR => 12
   | KEPERM => 13 | KEIO => 14 | KEBADF => 15 | KEROFS => 16 | KEINVAL => 17 | KENOTEMPTY => 18 | KEISDIR => 19
   | KPermission => 20 | KInvalid => 21 | KCombined => 22 | KOther => 23
   end.
-Definition dg_err (acc : Z) (e : option err) : Z :=
-  match e with None => dg acc 0 | Some x => dg (dg acc (errk_code (ek x))) (if ewrapped x then 1 else 2) end.
-Definition dg_info (acc : Z) (fi : finfo) : Z :=
-  dg (dg (dg_bytes acc (fi_name fi)) (if fi_dir fi then 1 else 0)) (fi_size fi).
-Definition dg_res (acc : Z) (r : res) : Z :=
+Definition adg_err (acc : Z) (e : option err) : Z :=
+  match e with None => adg acc 0 | Some x => adg (adg acc (aerrk_code (ek x))) (if ewrapped x then 1 else 2) end.
+Definition adg_info (acc : Z) (fi : finfo) : Z :=
+  adg (adg (adg_bytes acc (fi_name fi)) (if fi_dir fi then 1 else 0)) (fi_size fi).
+Definition adg_res (acc : Z) (r : res) : Z :=
   match r with
-  | RPanic => dg acc 101 | RNoSlot => dg acc 102 | ROk => dg acc 103
-  | RErr e => dg_err (dg acc 104) (Some e)
-  | RHandle h => dg (dg acc 105) (Z.of_nat h)
-  | RInfo fi => dg_info (dg acc 106) fi
-  | RData b e => dg_err (dg_bytes (dg acc 107) b) e
-  | RCount n e => dg_err (dg (dg acc 108) n) e
-  | RPos n e => dg_err (dg (dg acc 109) n) e
-  | RInfos l e => dg_err (fold_left dg_info l (dg acc 110)) e
-  | RNames l e => dg_err (fold_left dg_bytes l (dg acc 111)) e
-  | RName s => dg_bytes (dg acc 112) s
+  | RPanic => adg acc 101 | RNoSlot => adg acc 102 | ROk => adg acc 103
+  | RErr e => adg_err (adg acc 104) (Some e)
+  | RHandle h => adg (adg acc 105) (Z.of_nat h)
+  | RInfo fi => adg_info (adg acc 106) fi
+  | RData b e => adg_err (adg_bytes (adg acc 107) b) e
+  | RCount n e => adg_err (adg (adg acc 108) n) e
+  | RPos n e => adg_err (adg (adg acc 109) n) e
+  | RInfos l e => adg_err (fold_left adg_info l (adg acc 110)) e
+  | RNames l e => adg_err (fold_left adg_bytes l (adg acc 111)) e
+  | RName s => adg_bytes (adg acc 112) s
   end.
-Definition digest (rs : list res) : Z := fold_left dg_res rs 0.
+Definition adigest (rs : list res) : Z := fold_left adg_res rs 0.
